@@ -36,6 +36,7 @@ fn main() {
         ("replay", "calendar") => calendar::replay(rest),
         ("record", "calendar") => calendar::record(rest),
         ("replay", "convert") => convert::replay(rest),
+        ("replay", "tozerv") => convert::replay_tozerv(rest),
         ("record", "convert") => convert::record(rest),
         ("replay", "gitrepo") => gitrepo::replay(rest),
         ("record", "gitrepo") => gitrepo::record(rest),
